@@ -18,8 +18,9 @@ KLASSES = ("px-live", "px-clean3", "px-2of3", "px-nofault", "px-faulty")
 
 def gen(rng):
     r = rng.random()
-    klass = ("px-live" if r < 0.14 else "px-clean3" if r < 0.24 else "px-2of3" if r < 0.40
-             else "px-nofault" if r < 0.65 else "px-faulty")
+    # px-clean3 / px-2of3 were avoidance classes for the two Paxos defects fixed in c100387 / 382ed9c; they are
+    # folded back into px-nofault / px-faulty (the names are still accepted by _validate)
+    klass = "px-live" if r < 0.14 else "px-nofault" if r < 0.48 else "px-faulty"
     scale = rng.choice([0.005, 0.01, 0.02])
     n = 3 if klass in ("px-clean3", "px-2of3") else rng.choice([3, 3, 4, 5, 5])
     retry = rng.choice([0.02, 0.05, 0.1, 0.3])
@@ -34,7 +35,7 @@ def gen(rng):
     elif klass == "px-2of3":
         m = 2
     else:
-        m = rng.choice([1, 2, 2, 3, 3])
+        m = rng.choice([1, 2, 2, 3, 3, 4]) if n >= 4 else rng.choice([1, 2, 2, 3, 3])
     proposers = rng.sample(cands, min(m, len(cands)))
     t0 = round(rng.uniform(0.05, 0.2), 5)
     props = []
@@ -44,19 +45,20 @@ def gen(rng):
         else:
             t = t0 + rng.choice([0.0, rng.uniform(0, 4 * scale), rng.uniform(0, 30 * scale), rng.uniform(0, 2 * retry)])
         props.append({"t": round(t, 5), "node": p, "value": f"v{p}"})
-    if klass in ("px-nofault", "px-faulty", "px-2of3") and rng.random() < 0.15:
-        q = rng.choice(props)
-        props.append({"t": round(q["t"] + rng.uniform(scale, 6 * retry), 5), "node": q["node"], "value": q["value"]})
+    if klass in ("px-nofault", "px-faulty", "px-2of3") and rng.random() < 0.25:
+        for _ in range(rng.choice([1, 1, 2])):
+            q = rng.choice(props)
+            props.append({"t": round(q["t"] + rng.uniform(scale, 6 * retry), 5), "node": q["node"], "value": q["value"]})
     props.sort(key=lambda d: (d["t"], d["node"]))
     last = max(p["t"] for p in props)
     if klass == "px-live":
         horizon = round(last + 14 * max_delay(prof, per) + 0.05, 5)
     else:
-        horizon = round(last + rng.choice([0.8, 1.5, 3.0]), 5)
+        horizon = round(last + rng.choice([1.0, 2.0, 4.0]), 5)
     faults = []
     if klass in ("px-clean3", "px-2of3", "px-faulty"):
         kinds = ("partition", "crash", "pause", "loss", "loss")
-        faults = gen_fault_list(rng, n, horizon, kinds, max_faults=4)
+        faults = gen_fault_list(rng, n, horizon, kinds, max_faults=5)
         if klass == "px-2of3":
             # the third node is down for good from the start: no promise beyond the quorum can ever arrive
             faults = [f for f in faults if not (f["kind"] in ("crash", "pause") and f["node"] == dead)]
@@ -138,7 +140,8 @@ def run(sc):
     pr = dict.fromkeys(["px_promise_beyond_quorum", "px_late_promise_carried_accepted_value", "px_retry_after_nack",
                         "px_competing_ballots", "px_decided_via_learn", "px_value_adopted_from_promise",
                         "px_accepted_for_stale_ballot", "px_future_resolved", "px_proposal_skipped_node_down",
-                        "px_reproposal"], 0)
+                        "px_reproposal", "px_decided_on_retried_ballot", "px_four_proposers"], 0)
+    retried = set()            # (proposer, ballot number) of ballots created by PaxosRetry
 
     def check_futures():
         for rec in futures:
@@ -245,6 +248,8 @@ def run(sc):
         else:
             bn = md.get("ballot_number")
             b = (bn, x.name)
+            if (x.name, bn) in retried:
+                pr["px_decided_on_retried_ballot"] = 1
             table = acc.get(b, {})
             holders = sorted(a for a, vals in table.items() if v in vals)
             if len(holders) < quorum:
@@ -295,6 +300,7 @@ def run(sc):
                     pr["px_late_promise_carried_accepted_value"] = 1
         elif et == "PaxosRetry":
             pr["px_retry_after_nack"] = 1
+            retried.add((tgt.name, tgt._current_ballot.number))
         elif et == "PaxosAccepted":
             k = (tgt.name, md.get("ballot_number"))
             accepted_msgs[k] = accepted_msgs.get(k, 0) + 1
@@ -320,6 +326,7 @@ def run(sc):
             sig = f"C12/liveness/{CLS}/" + ("undecided-node" if und else "future-unresolved")
             msg = (f"fault-free, delays <= {max_delay(sc['profile'], sc.get('per_link')):.4f}s, single proposer n{p0['node']} "
                    f"proposed {want!r} at t={p0['t']}; at t={sc['horizon']} undecided: {und}, unresolved futures at: {unres}")
+    pr["px_four_proposers"] = int(len(own_value) >= 4)
     counters = {f"probe.{k}": v for k, v in pr.items()}
     counters.update(fd.counters())
     counters["budget_exhausted"] = int(status == "budget")
